@@ -159,6 +159,7 @@ func (st *State) callAPI(fn *ssa.Function, a []Value, caller *frame) Value {
 		if i >= len(st.spawned) {
 			st.end("engine-error", "RunSpawned: no such goroutine")
 		}
+		st.spawned[i].Started = true
 		sp := st.spawned[i]
 		st.call(sp.Fn, sp.Args, nil)
 		return nil
@@ -174,6 +175,12 @@ func (st *State) callAPI(fn *ssa.Function, a []Value, caller *frame) Value {
 		return i64(int64(st.vm.Cfg.Tier))
 	case "Symbolic":
 		return term.Bool(st.concrete == nil)
+	case "Schedule":
+		st.schedOn(int(st.asInt(a[0], 0, 16)))
+		return nil
+	case "AutoSchedule":
+		st.autoSched = true
+		return nil
 	case "ExpectBlocked":
 		st.expectBlocked = true
 		return nil
